@@ -850,3 +850,380 @@ func TestThreshold(t *testing.T) {
 		out.Emit(rec)
 	}
 }
+
+// =====================================================================================================================
+// X05: the invocation wrappers Psi_I, RefineInvoke (Psi_R), Psi_A run on tiny assembled programs.
+// A case describes a SCRIPT; the driver assembles it into a standard program blob, installs it (authorizer code /
+// service code preimage), runs the real wrapper and records what came back.  The program's output is the
+// concatenation of one "slot" per script op:
+//   fetch  {sel,a,b,f,cap}        slot = E_8(w7 after the call) ++ cap bytes (the window fetch wrote; zero beyond it)
+//   call   {id, regs:[6 x 8]}     slot = E_8(w7 after the call)                       (any host-call identifier)
+//   hist   {svc(8), h(32), f, cap} slot = E_8(w7') ++ cap bytes                       (historical_lookup, refine)
+//   export {data}                 slot = E_8(w7')                                      (refine)
+//   info   {}                     slot = E_8(w7') ++ 96 bytes                          (accumulate: info on the caller)
+// endings: halt (output = all slots), halt0 (empty output), echo (halt at once: output = the argument), trap, spin (runs out of gas), badblob (the standard-program
+// header is cut short: Y(p) is undefined).  Accumulate programs first store their invocation argument under storage key
+// "a" and, before halting, the slots under key "o" (Psi_A hands back no output blob).
+// The record carries the case, the result and `aux` (codec encodings and hashes, primitives) and the assembled program's
+// instruction and host-call counts.
+
+type ivAsm struct {
+	code, mask, data []byte
+	ninstr, ncalls   int
+}
+
+const ivDataAt = uint64(0x20000)
+
+func (a *ivAsm) ins(b ...byte) {
+	a.code = append(a.code, b...)
+	a.mask = append(a.mask, 1)
+	for i := 1; i < len(b); i++ {
+		a.mask = append(a.mask, 0)
+	}
+	a.ninstr++
+}
+func (a *ivAsm) load(reg int, v uint64) {
+	b := []byte{20, byte(reg)}
+	for i := 0; i < 8; i++ {
+		b = append(b, byte(v>>(8*i)))
+	}
+	a.ins(b...)
+}
+func (a *ivAsm) put(b []byte) uint64 {
+	at := ivDataAt + uint64(len(a.data))
+	a.data = append(a.data, b...)
+	return at
+}
+func (a *ivAsm) ecalli(id uint64) {
+	a.ins(10, byte(id), byte(id>>8), byte(id>>16), byte(id>>24))
+	a.ncalls++
+}
+
+// store_u64 reg -> [addr]
+func (a *ivAsm) store(reg int, addr uint64) {
+	a.ins(62, byte(reg), byte(addr), byte(addr>>8), byte(addr>>16), byte(addr>>24))
+}
+func (a *ivAsm) move(dst, src int) { a.ins(100, byte(src<<4|dst)) }
+func ivNat(x int) []byte {
+	switch {
+	case x < 1<<7:
+		return []byte{byte(x)}
+	case x < 1<<14:
+		return []byte{byte(0x80 | x>>8), byte(x)}
+	case x < 1<<21:
+		return []byte{byte(0xC0 | x>>16), byte(x), byte(x >> 8)}
+	}
+	panic("driver: program too long")
+}
+func (a *ivAsm) blob() []byte {
+	inner := []byte{0, 0}
+	inner = append(inner, ivNat(len(a.code))...)
+	inner = append(inner, a.code...)
+	k := make([]byte, (len(a.code)+7)/8)
+	for i, m := range a.mask {
+		if m == 1 {
+			k[i/8] |= 1 << (i % 8)
+		}
+	}
+	inner = append(inner, k...)
+	w := len(a.data)
+	out := []byte{0, 0, 0, byte(w), byte(w >> 8), byte(w >> 16), 0, 0, 0, 0, 0}
+	out = append(out, a.data...)
+	out = append(out, byte(len(inner)), byte(len(inner)>>8), byte(len(inner)>>16), byte(len(inner)>>24))
+	return append(out, inner...)
+}
+
+// assemble a script; returns the blob and the total size of the slots
+func ivAssemble(kind string, script []any, end string) (*ivAsm, []byte) {
+	a := &ivAsm{}
+	// the slots live at the start of the read-write segment
+	total := 0
+	for _, oj := range script {
+		o := oj.(map[string]any)
+		switch vfd.S(o["op"]) {
+		case "fetch", "hist":
+			total += 8 + vfd.I(o["cap"])
+		case "info":
+			total += 8 + 96
+		default:
+			total += 8
+		}
+	}
+	a.data = make([]byte, total)
+	if kind == "A" { // accumulation enters at instruction counter 5: a 5-byte jump (never executed) fills 0..4
+		a.ins(40, 5, 0, 0, 0)
+		a.ninstr--
+		// keep the argument: write(key "a", value = [w7, w7+w8))
+		a.move(9, 7)
+		a.move(10, 8)
+		a.load(7, a.put([]byte("a")))
+		a.load(8, 1)
+		a.ecalli(uint64(WriteOp))
+	}
+	at := ivDataAt
+	for _, oj := range script {
+		o := oj.(map[string]any)
+		switch vfd.S(o["op"]) {
+		case "fetch":
+			a.load(7, at+8)
+			a.load(8, vfd.FromU64LE(o["f"]))
+			a.load(9, uint64(vfd.I(o["cap"])))
+			a.load(10, vfd.FromU64LE(o["sel"]))
+			a.load(11, vfd.FromU64LE(o["a"]))
+			a.load(12, vfd.FromU64LE(o["b"]))
+			a.ecalli(uint64(FetchOp))
+			a.store(7, at)
+			at += 8 + uint64(vfd.I(o["cap"]))
+		case "call":
+			for i, r := range hcList(o["regs"]) {
+				a.load(7+i, vfd.FromU64LE(r))
+			}
+			a.ecalli(vfd.FromU64LE(o["id"]))
+			a.store(7, at)
+			at += 8
+		case "hist":
+			a.load(7, vfd.FromU64LE(o["svc"]))
+			a.load(8, a.put(vfd.Bytes(o["h"])))
+			a.load(9, at+8)
+			a.load(10, vfd.FromU64LE(o["f"]))
+			a.load(11, uint64(vfd.I(o["cap"])))
+			a.ecalli(uint64(HistoricalLookupOp))
+			a.store(7, at)
+			at += 8 + uint64(vfd.I(o["cap"]))
+		case "export":
+			d := vfd.Bytes(o["data"])
+			a.load(7, a.put(d))
+			a.load(8, uint64(len(d)))
+			a.ecalli(uint64(ExportOp))
+			a.store(7, at)
+			at += 8
+		case "info":
+			a.load(7, ^uint64(0))
+			a.load(8, at+8)
+			a.load(9, 0)
+			a.load(10, 96)
+			a.ecalli(uint64(InfoOp))
+			a.store(7, at)
+			at += 8 + 96
+		default:
+			panic("driver: unknown script op " + vfd.S(o["op"]))
+		}
+	}
+	if kind == "A" && (end == "halt" || end == "halt0" || end == "echo") { // hand the slots back through storage key "o"
+		a.load(7, a.put([]byte("o")))
+		a.load(8, 1)
+		a.load(9, ivDataAt)
+		a.load(10, uint64(total))
+		a.ecalli(uint64(WriteOp))
+	}
+	switch end {
+	case "halt":
+		a.load(7, ivDataAt)
+		a.load(8, uint64(total))
+		a.ins(50, 0)
+	case "halt0":
+		a.load(7, ivDataAt)
+		a.load(8, 0)
+		a.ins(50, 0)
+	case "echo": // halt at once: registers 7 and 8 still name the invocation's argument
+		a.ins(50, 0)
+	case "trap", "badblob":
+		a.ins(0)
+	case "spin": // fallthrough ends the block, so the jump sits at a block start and may target itself
+		a.ins(1)
+		a.ins(40, 0)
+	default:
+		panic("driver: unknown ending " + end)
+	}
+	b := a.blob()
+	if end == "badblob" {
+		b = b[:7] // the header announces more than there is
+	}
+	return a, b
+}
+
+func ivTrim(b []byte) []int {
+	n := len(b)
+	for n > 0 && b[n-1] == 0 {
+		n--
+	}
+	return vfd.B(b[:n])
+}
+
+func ivResult(t types.WorkExecResultType) string {
+	switch t {
+	case types.WorkExecResultOk:
+		return "ok"
+	case types.WorkExecResultOutOfGas:
+		return "oog"
+	case types.WorkExecResultPanic:
+		return "panic"
+	case types.WorkExecResultBadCode:
+		return "bad"
+	case types.WorkExecResultCodeOversize:
+		return "big"
+	}
+	return "other"
+}
+
+func TestInvocations(t *testing.T) {
+	cases := vfd.ReadCases(vfd.Env("VF_CASES", "cases.ndjson"))
+	out := vfd.NewOut(vfd.Env("VF_OUT", "trace.ndjson"))
+	defer out.Close()
+	for _, c := range cases {
+		kind := vfd.S(c["kind"])
+		asm, blob := ivAssemble(kind, hcList(c["script"]), vfd.S(c["end"]))
+		codecase := vfd.S(c["codecase"])
+		rec := map[string]any{"ev": "Inv", "case": c, "ninstr": asm.ninstr, "ncalls": asm.ncalls, "gopanic": "",
+			"res": "", "out": []int{}, "used": vfd.U64LE(0), "exports": []any{}, "bal": vfd.U64LE(0), "sta": []int{}, "sto": []int{}, "hasa": false, "haso": false}
+		fx := hcObj(c["fx"])
+		// the work package and the extrinsic data, as fetch's environment describes them
+		xspecs, xmap := [][]types.ExtrinsicSpec{}, ExtrinsicDataMap{}
+		for _, it := range hcList(fx["x"]) {
+			row := []types.ExtrinsicSpec{}
+			for _, b := range hcList(it) {
+				blobx := vfd.Bytes(b)
+				h := hash.Blake2bHash(blobx)
+				row = append(row, types.ExtrinsicSpec{Hash: h, Len: types.U32(len(blobx))})
+				xmap[h] = ExtrinsicData(blobx)
+			}
+			xspecs = append(xspecs, row)
+		}
+		wp := hcWorkPackage(hcObj(fx["p"]), xspecs)
+		hnil := hash.Blake2bHash(nil)
+		aux := map[string]any{"consts": vfd.B(getFetchConstantsData()), "encp": []int{}, "encx": []int{}, "hp": []int{}, "hnil": vfd.B(hnil[:]), "oall": []int{}, "oeach": []any{}}
+		if wp != nil {
+			enc := types.NewEncoder()
+			enc.SetHashSegmentMap(types.HashSegmentMap{}) // the driver's import specifications name plain segment roots
+			if b, err := enc.Encode(wp); err == nil {
+				aux["encp"] = vfd.B(b)
+				h := hash.Blake2bHash(b)
+				aux["hp"] = vfd.B(h[:])
+			}
+			if b, err := types.NewEncoder().Encode(&wp.Context); err == nil {
+				aux["encx"] = vfd.B(b)
+			}
+		}
+		accounts := types.ServiceAccountState{}
+		for _, s := range hcList(c["svcs"]) {
+			id, a := hcAccount(s.(map[string]any))
+			accounts[id] = a
+		}
+		// install the code of the service that runs (refine: the item's service; accumulate: the accumulating one)
+		install := func(sid types.ServiceID, codeHash types.OpaqueHash) {
+			a, ok := accounts[sid]
+			if !ok || codecase == "nopre" {
+				return
+			}
+			meta := []byte{0}
+			if codecase == "big" {
+				meta = append([]byte{0xE0, 0x40, 0x42, 0x0f}, make([]byte, 1000000)...) // E(1 000 000) ++ metadata: the blob exceeds W_C with the padding below
+			}
+			full := append(append([]byte{}, meta...), blob...)
+			if codecase == "big" {
+				full = append(full, make([]byte, types.MaxServiceCodeSize)...)
+			}
+			a.PreimageLookup[codeHash] = full
+			n := len(full)
+			if codecase == "wronglen" {
+				n++
+			}
+			ss := types.TimeSlotSet{}
+			for _, s := range hcList(c["slots"]) {
+				ss = append(ss, types.TimeSlot(hcU32(s)))
+			}
+			a.LookupDict[types.LookupMetaMapkey{Hash: codeHash, Length: types.U32(n)}] = ss
+			accounts[sid] = a
+		}
+		panicked, msg := vfd.Guard(func() {
+			switch kind {
+			case "I":
+				code := blob
+				if codecase == "nopre" {
+					code = nil
+				} else if codecase == "big" {
+					code = append(append([]byte{}, blob...), make([]byte, types.MaxIsAuthorizedCodeSize)...)
+				}
+				r := Psi_I(*wp, types.CoreIndex(vfd.I(c["core"])), code)
+				rec["res"], rec["out"], rec["used"] = ivResult(r.WorkExecResult), vfd.B(r.WorkOutput), vfd.U64LE(uint64(r.Gas))
+			case "R":
+				idx := uint(vfd.I(hcObj(fx["i"])["v"]))
+				item := wp.Items[idx]
+				if codecase != "noservice" {
+					install(item.Service, item.CodeHash)
+				} else {
+					delete(accounts, item.Service)
+				}
+				imps := [][]types.ExportSegment{}
+				for _, it := range hcList(fx["imp"]) {
+					row := []types.ExportSegment{}
+					for _, pid := range hcList(it) {
+						var sg types.ExportSegment
+						for q := range sg {
+							sg[q] = byte((7*(q+1) + vfd.I(pid)) % 251)
+						}
+						row = append(row, sg)
+					}
+					imps = append(imps, row)
+				}
+				r := RefineInvoke(RefineInput{CoreIndex: types.CoreIndex(vfd.I(c["core"])), WorkItemIndex: idx, WorkPackage: *wp,
+					AuthOutput: types.ByteSequence(vfd.Bytes(hcObj(fx["r"])["v"])), ImportSegments: imps, ExportSegmentOffset: uint(vfd.I(c["zeta"])),
+					ServiceAccounts: accounts, ExtrinsicDataMap: xmap})
+				rec["res"], rec["out"], rec["used"] = ivResult(r.WorkResult), vfd.B(r.RefineOutput), vfd.U64LE(uint64(r.Gas))
+				ex := []any{}
+				for _, s := range r.ExportSegment {
+					ex = append(ex, ivTrim(s[:]))
+				}
+				rec["exports"] = ex
+			case "A":
+				self := types.ServiceID(hcU32(c["self"]))
+				if a, ok := accounts[self]; ok {
+					install(self, a.ServiceInfo.CodeHash)
+				}
+				ops := []types.OperandOrDeferredTransfer{}
+				for k, ij := range hcList(c["inputs"]) {
+					io := ij.(map[string]any)
+					if vfd.S(io["k"]) == "x" {
+						ops = append(ops, types.OperandOrDeferredTransfer{DeferredTransfer: &types.DeferredTransfer{SenderID: 7, ReceiverID: self,
+							Balance: types.U64(vfd.FromU64LE(io["amt"])), GasLimit: 9}})
+					} else {
+						ops = append(ops, types.OperandOrDeferredTransfer{Operand: &types.Operand{GasLimit: types.Gas(k), Result: types.WorkExecResult{Type: types.WorkExecResultOk, Data: []byte{1, 2, 3}}, AuthOutput: types.ByteSequence{9}}})
+					}
+				}
+				if len(ops) > 0 {
+					all, _ := types.NewEncoder().EncodeUint(uint64(len(ops)))
+					each := []any{}
+					for i := range ops {
+						b, _ := types.NewEncoder().Encode(&ops[i])
+						all = append(all, b...)
+						each = append(each, vfd.B(b))
+					}
+					aux["oall"], aux["oeach"] = vfd.B(all), each
+				}
+				eta := types.Entropy{}
+				copy(eta[:], vfd.Bytes(fx["n"]))
+				ps := types.PartialStateSet{ServiceAccounts: accounts, ValidatorKeys: make(types.ValidatorsData, types.ValidatorsCount),
+					Authorizers: make(types.AuthQueues, types.CoresCount), Assign: make(types.ServiceIDList, types.CoresCount), AlwaysAccum: types.AlwaysAccumulateMap{}}
+				r := Psi_A(ps, types.TimeSlot(hcU32(c["t"])), self, types.Gas(vfd.FromU64LE(c["gas"])), ops, eta, types.StateKeyVals{})
+				rec["used"] = vfd.U64LE(uint64(r.Gas))
+				rec["res"] = "ran"
+				if a, ok := r.PartialStateSet.ServiceAccounts[self]; ok {
+					rec["bal"] = vfd.U64LE(uint64(a.ServiceInfo.Balance))
+					if v, ok := a.StorageDict["a"]; ok {
+						rec["sta"], rec["hasa"] = vfd.B(v), true
+					}
+					if v, ok := a.StorageDict["o"]; ok {
+						rec["sto"], rec["haso"] = vfd.B(v), true
+					}
+				} else {
+					rec["res"] = "gone"
+				}
+			}
+		})
+		if panicked {
+			rec["gopanic"], rec["res"] = msg, "gopanic"
+		}
+		rec["aux"] = aux
+		out.Emit(rec)
+	}
+}
